@@ -40,7 +40,7 @@ STATUS = {
  "C06": ("full (render model)", "`C06_year_total`, `C06_table_total`, `C06_aggregate_year`, `C06_since_inception`, `C06_round_spec`, `C06_display_only`"),
  "C07": ("full", "`C07_row_perm`, `C07_column_perm`, `C07_file_partition`, `C07_header_case_pad`, `C07_unknown_columns`, `C07_sort_unique`, …"),
  "C08": ("full (pipeline + gains model)", "`C08_table_local`, `C08_other_rows_irrelevant`, `C08_error_local`, `C08_aggregate_additive`"),
- "C09": ("full for the modelled hash walks; rest sampled across processes", "`C09_deterministic`, `C09_summary_deterministic`, `C09_split_expansion`, `C09_cost_tables`, `C09_gains_tables`"),
+ "C09": ("full for the modelled hash walks; rest sampled across processes", "`C09_deterministic`, `C09_deterministic_ledger`, `C09_ledger_model_rows_ok`, `C09_summary_deterministic`, `C09_split_expansion`, `C09_cost_tables`, `C09_gains_tables`"),
  "C10": ("simple mode full (the generator `makeSummaryTxs` incl. rows carried over); annual mode **partial** (false for the code: F-10c)", "`C10_summary_reproduces_history`, `C10_annual_loss_year_counterexample`, `C10_summary_then_later_partial`, `C10_later_rows_partial`, `C10_later_rows_loss_only_partial`, `C10_no_conflict_is_far`, `C10_simple_rebuilds`, `C10_annual_sell`, `C10_annual_rebuilds`, `C10_summary_date_inclusive`"),
  "C11": ("full on the canonical domain", "`C11_roundtrip`, `C11_idempotent_bytes`, cell theorems, two `_counterexample`s"),
  "C12": ("full", "`C12_effective_eq_spec`, `C12_error_iff_none_exists`, `C12_never_later_at_most_7_days`, currency rules"),
